@@ -139,6 +139,15 @@ def resolveFileOpt (home etc : Bytes) : FileOpt → Except Err Bytes
   | .path p found => if found then .ok p else .error .fileNotFound
   | .system homeHas etcHas => if homeHas then .ok home else if etcHas then .ok etc else .error .badOption
 
+/-- `util.ResolveFilePath f`: the path AS GIVEN when a file is there (`asGiven`, environment);
+only otherwise the path with a leading `~/` stripped, re-rooted under the home directory, when a
+file is there (`underHome`); otherwise not found.  The order matters: a same-named file under
+`$HOME` must never replace an existing configured file. -/
+def resolvePath (home f : Bytes) (asGiven underHome : Bool) : Except Err Bytes :=
+  if asGiven then .ok f
+  else if underHome then .ok (home ++ b!"/" ++ trimPrefix f (b!"~/"))
+  else .error .fileNotFound
+
 /-! ## what the channel is given for in-channel authentication (`Transport.InChannelAuthData`) -/
 
 inductive TransportKind | system | standard
